@@ -4,7 +4,7 @@
   Property theorems only; helper lemmas are in `EpsModel/Lemmas`. `H` is the digest function of
   the header (XXH3-64 in the crate): the theorems hold for every `H` with 64-bit values.
 -/
-import EpsModel.Lemmas.HeaderL
+import EpsModel.Lemmas.TopLevel
 namespace Eps.C01
 open Eps
 
